@@ -279,6 +279,8 @@ def validate_traces(module, cfg, trace_path, timeout=900, heap="8g", depth_first
     Returns dict(ok, violated, kind, consumed, total, stuck_event, out)."""
     lines = [l for l in Path(trace_path).read_text().splitlines() if l.strip()]
     files = {"trace.ndjson": "\n".join(lines) + "\n"}
+    if len(lines) > 20000 and heap == "8g":
+        heap = "20g"   # a violation deep inside a long trace makes TLC rebuild the whole prefix as its error trace
     files.update(extra_files or {})
     try:
         r = tlc(module, cfg, files=files, workers=1, timeout=timeout, heap=heap, depth_first=depth_first, deadlock=False)
